@@ -1,7 +1,7 @@
 // C01.c: compaction (sort.cpp GatherFaces / ReindexFace / Permute): permuting
 // faces preserves the representation invariant and the mesh up to renumbering.
 #include "vf_harness.h"
-#include "/repo/src/sort.cpp"
+#include "sort.cpp"
 #include "c01_common.h"
 using namespace manifold;
 #ifndef VF_T
